@@ -41,6 +41,9 @@ def make_t3(envs):
         got = rtcat.p_core(f["P"])
         if got != a:
             return "parse gives %s but the reference gives %s" % (got[:160], (a or "")[:160])
+        cw = rtcat.c_vs_ref(f["C"], a)
+        if cw:
+            return cw
         en, sn = sid.split(".")
         env = by_name[en]
         if en.startswith("bd_str") or en.startswith("bd_cho"):
